@@ -144,7 +144,11 @@ func runC11(c *eng.Ctx) {
 		}
 		c.Check(okAll, "every-selected-file-read", get.Instr, ff, "every reader selected for the metric is consulted", "")
 		a1, a2 := eng.CallArgs(fr.Instr.(*ssa.Call))[0], eng.CallArgs(get.Instr.(*ssa.Call))[0]
-		c.Check(a1 == a2 && strings.Contains(p.Desc(a1), "MetricID"), "same-metric-key", get.Instr, ff, "files are selected and read by the queried metric's id", "")
+		sameKey := a1 == a2
+		if _, isParam := a2.(*ssa.Parameter); isParam && !sameKey {
+			sameKey = eng.DependsOn(a2, func(x ssa.Value) bool { return x == a1 }) // through a helper's parameter
+		}
+		c.Check(sameKey && strings.Contains(p.Desc(a1), "MetricID"), "same-metric-key", get.Instr, ff, "files are selected and read by the queried metric's id", p.Desc(a1)+" vs "+p.DescUp(a2))
 		// snapshot ownership
 		if len(ff.AnonFuncs) == 0 {
 			c.Undecided("fileFilter has no deferred closure")
